@@ -19,7 +19,8 @@ import mido.midifiles.midifiles as mfmod  # noqa: E402
 from mido import MidiFile, MidiTrack, MetaMessage, Message  # noqa: E402
 
 CHARSETS = ('latin1', 'ascii', 'utf-8', 'cp1252', 'shift_jis', 'utf-16', 'utf-16-le', 'utf-32', 'koi8_r', 'cp037',
-            'utf-16-be', 'utf-32-le', 'utf-7', 'iso2022_jp', 'cp500', 'euc_jp', 'utf8', 'UTF-16', 'sjis')
+            'utf-16-be', 'utf-32-le', 'utf-7', 'iso2022_jp', 'cp500', 'euc_jp', 'utf8', 'UTF-16', 'sjis',
+            'gb2312', 'big5', 'euc_kr')
 POOL = ['A', 'z', ' ', '0', '~', 'é', 'ü', 'ß', 'Ø', ' ', '€', 'я', 'Ж', 'あ', '漢', 'ｱ', '𝄞', '\u0080']
 TEXT_TYPES = {'text': ('text', 1), 'copyright': ('text', 2), 'track_name': ('name', 3),
               'instrument_name': ('name', 4), 'lyrics': ('text', 5), 'marker': ('text', 6),
@@ -28,16 +29,65 @@ SAVE_FAULTS = ('float_time', 'negative_time', 'realtime', 'unencodable', 'type0_
 LOAD_FAULTS = ('bad_data_byte', 'undecodable', 'bad_keysig', 'bad_header', 'garbage_tail', 'unknown_charset')
 
 
+_REPERTOIRE = {}
+
+
+def repertoire(cs):
+    """Every character of the Basic Multilingual Plane that the charset encodes and decodes back (sorted; computed
+    once per process and charset)."""
+    rep = _REPERTOIRE.get(cs)
+    if rep is None:
+        rep = []
+        for cp in range(0x20, 0x10000):
+            if 0xD800 <= cp < 0xE000:
+                continue
+            ch = chr(cp)
+            try:
+                if ch.encode(cs).decode(cs) == ch:
+                    rep.append(ch)
+            except (UnicodeError, LookupError):
+                pass
+        _REPERTOIRE[cs] = rep
+    return rep
+
+
+def pad_to_encoded_length(t, cs, target):
+    """t extended with 'A's until its encoding is exactly `target` bytes long, or None when that cannot be hit."""
+    try:
+        for _ in range(target + 1):
+            n = len(t.encode(cs))
+            if n == target:
+                return t if t.encode(cs).decode(cs) == t else None
+            if n > target:
+                return None
+            t += 'A' * max(1, (target - n) // 4)
+    except (UnicodeError, LookupError):
+        pass
+    return None
+
+
 def gen_text(rng, cs, maxlen=6):
     out = []
-    for _ in range(rng.randint(0, maxlen)):
-        ch = pick(rng, POOL)
-        try:
-            if ch.encode(cs).decode(cs) == ch:
-                out.append(ch)
-        except (UnicodeError, LookupError):
-            pass
+    r0 = rng.random()
+    if r0 < 0.3:
+        # characters from anywhere in the charset's repertoire, not only the familiar ones
+        rep = repertoire(cs)
+        if rep:
+            out = [rep[rng.randrange(len(rep))] for _ in range(rng.randint(1, 2 * maxlen))]
+    else:
+        for _ in range(rng.randint(0, maxlen)):
+            ch = pick(rng, POOL)
+            try:
+                if ch.encode(cs).decode(cs) == ch:
+                    out.append(ch)
+            except (UnicodeError, LookupError):
+                pass
     t = ''.join(out)
+    if r0 > 0.96:
+        # encoded payload lengths at the sizes where the length prefix grows (the 16383/16384 step is C07's)
+        padded = pad_to_encoded_length(t, cs, pick(rng, (127, 128, 128, 129, 255, 256)))
+        if padded is not None:
+            return padded
     r = rng.random()
     if r < 0.12:
         # texts whose encoded form begins or ends with bytes that look like something else: a byte order mark,
